@@ -331,13 +331,20 @@ Definition max_value (r : reader) : N := match all_values r with [] => 0 | x :: 
 
 Definition is_none {A} (o : option A) : bool := match o with None => true | Some _ => false end.
 
-(* IndexMerger::segment_has_live_nulls *)
-Definition segment_has_live_nulls (r : reader) : bool :=
+(* IndexMerger::segment_has_live_nulls.  Which cardinalities are declared null-free without looking at the
+   documents is re-read from the source (pin SORT_LIVE_NULLS_SCANS_MULTIVALUED): 1 = only `Full`
+   (`== Cardinality::Full`), 0 = everything but `Optional` (`!= Cardinality::Optional`, the shape of F171). *)
+Definition scan_live_nulls (r : reader) : bool :=
+  if negb (has_deletes r) then true
+  else existsb (fun d => is_none (col_first r d)) (doc_ids_alive r).
+Definition segment_has_live_nulls_gen (scans_multivalued : bool) (r : reader) : bool :=
   match cardinality_of (r_vals r) with
-  | Optional => if negb (has_deletes r) then true
-                else existsb (fun d => is_none (col_first r d)) (doc_ids_alive r)
-  | _ => false
+  | Full => false
+  | Optional => scan_live_nulls r
+  | Multivalued => if scans_multivalued then scan_live_nulls r else false
   end.
+Definition scans_multivalued : bool := N.eqb SORT_LIVE_NULLS_SCANS_MULTIVALUED 1.
+Definition segment_has_live_nulls (r : reader) : bool := segment_has_live_nulls_gen scans_multivalued r.
 
 (* IndexMerger::sort_readers_by_min_sort_field (stable sort_by_key; skipped for Str/Bytes) *)
 Definition sort_readers_by_min (o : order) (readers : list reader) : list reader :=
@@ -433,11 +440,14 @@ Definition reader_sorted (o : order) (r : reader) : bool :=
   sorted_b (key_le o) (map (col_first r) (doc_ids_alive r)).
 Definition wf_reader (r : reader) : bool := Nat.eqb (length (r_alive r)) (r_max_doc r).
 
-(* F171: a Multivalued sort column with a live document without value is treated as null-free *)
-Definition has_f171 (readers : list reader) : bool :=
-  existsb (fun r => match cardinality_of (r_vals r) with
-                    | Multivalued => existsb (fun d => is_none (col_first r d)) (doc_ids_alive r)
-                    | _ => false end) readers.
+(* F171: a Multivalued sort column with a live document without value is treated as null-free -- only when the
+   source has the shape that does not scan Multivalued columns (the class is empty for the fixed code) *)
+Definition f171_reader_gen (sm : bool) (r : reader) : bool :=
+  negb sm && match cardinality_of (r_vals r) with
+             | Multivalued => existsb (fun d => is_none (col_first r d)) (doc_ids_alive r)
+             | _ => false end.
+Definition has_f171_gen (sm : bool) (readers : list reader) : bool := existsb (f171_reader_gen sm) readers.
+Definition has_f171 (readers : list reader) : bool := has_f171_gen scans_multivalued readers.
 
 (* ------------------------------------------------------------------ spec predicates for the harness *)
 
